@@ -59,6 +59,15 @@ Theorem C10_undelegate_available : forall denoms users vals, NoDup denoms -> NoD
 Proof. exact undelegate_available. Qed.
 Print Assumptions C10_undelegate_available.
 
+(* ... the value of their shares and not more: the shares an undelegation burns (the module's
+   CalculateShareByAmount) are worth the amount taken out of the pooled delegation, up to the floor
+   and the two roundings (amount * supply / delegation below 10^32). *)
+Theorem C10_undelegate_burns_value : forall T b amt cost,
+  0 < T -> 0 < b -> 0 < amt -> amt * T < b * SHLIM ->
+  calc_share T b amt = Ok cost -> amt * T <= (cost + 2) * b.
+Proof. exact cost_covers_amount. Qed.
+Print Assumptions C10_undelegate_burns_value.
+
 (* ... and receives it exactly once, to the chosen recipient: what was undelegated in favour of r
    equals what end-blocks have paid to r plus what is still queued for r. *)
 Theorem C10_undelegate_paid_once_to_recipient : forall denoms users vals, NoDup denoms -> NoDup users -> NoDup vals ->
